@@ -23,6 +23,9 @@ type ValueSpec struct {
 	Elems  []ValueSpec `json:"elems,omitempty"` // slice elements / map values
 	Keys   [][]byte    `json:"keys,omitempty"`  // map keys (bytes: Go strings need not be UTF-8)
 	P      *ValueSpec  `json:"p,omitempty"`     // pointee
+	// Rep > len(Elems): the slice holds Rep items, Elems repeated in turn (tens of
+	// thousands of items without tens of thousands of draws).
+	Rep int `json:"rep,omitempty"`
 }
 
 func (v ValueSpec) Time() time.Time {
@@ -93,9 +96,13 @@ func Materialise(t TypeSpec, v ValueSpec, dst reflect.Value) {
 			dst.Set(reflect.Zero(dst.Type()))
 			return
 		}
-		s := reflect.MakeSlice(dst.Type(), len(v.Elems), len(v.Elems))
-		for i := range v.Elems {
-			Materialise(*t.Elem, v.Elems[i], s.Index(i))
+		n := len(v.Elems)
+		if v.Rep > n && n > 0 {
+			n = v.Rep
+		}
+		s := reflect.MakeSlice(dst.Type(), n, n)
+		for i := 0; i < n; i++ {
+			Materialise(*t.Elem, v.Elems[i%len(v.Elems)], s.Index(i))
 		}
 		dst.Set(s)
 	case "map":
